@@ -47,17 +47,34 @@ func NewDefault() *Config {
 
 // Writes the configuration to disk.
 func (c *Config) persist() error {
-	f, err := os.Create(configPath.Path)
+	// Write a temporary file and rename it over the config file once it is complete, so that
+	// a failed or interrupted write leaves the previous file in place instead of a truncated one
+	// (which the next start would replace by the defaults).
+	tmpPath := configPath.Path + ".tmp"
+	f, err := os.Create(tmpPath)
 	if err != nil {
-		slog.Error("Failed to create config file", "path", configPath.Path, "error", err)
+		slog.Error("Failed to create config file", "path", tmpPath, "error", err)
 		return fmt.Errorf("%w: failed to open config file for writing '%s'", ErrConfigFileOpen, configPath.Path)
 	}
-	defer f.Close()
 
 	enc := json.NewEncoder(f)
 	enc.SetIndent("", "  ") // Pretty print the JSON output
 	if err := enc.Encode(c); err != nil {
+		f.Close()
+		os.Remove(tmpPath)
 		slog.Error("Failed to encode config to JSON", "path", configPath.Path, "error", err)
+		return fmt.Errorf("%w: failed to write config to file '%s'", ErrConfigFileWrite, configPath.Path)
+	}
+
+	if err := f.Close(); err != nil {
+		os.Remove(tmpPath)
+		slog.Error("Failed to write config file", "path", tmpPath, "error", err)
+		return fmt.Errorf("%w: failed to write config to file '%s'", ErrConfigFileWrite, configPath.Path)
+	}
+
+	if err := os.Rename(tmpPath, configPath.Path); err != nil {
+		os.Remove(tmpPath)
+		slog.Error("Failed to move config file into place", "path", configPath.Path, "error", err)
 		return fmt.Errorf("%w: failed to write config to file '%s'", ErrConfigFileWrite, configPath.Path)
 	}
 
